@@ -124,12 +124,13 @@ func (s *verifC19LevelStore) GetCapabilities(ctx context.Context, instanceName d
 // a name of depth 0..3 returns the copy stored under the most specific
 // ancestor-or-self name that has it; NotFound exactly when no ancestor has it;
 // names are probed from most to least specific, never beyond the first hit,
-// never outside the ancestor chain (siblings "a/c", "b" are never touched); an
+// never outside the ancestor chain (siblings "ab/d", "b" are never touched); an
 // error other than NotFound ends the search and is reported.
 func Verif_C19_T4_HierarchicalGet() {
 	ctx := context.Background()
-	names := []string{"", "a", "a/b", "a/b/c", "a/c", "b"}
-	chainLen := 4 // names[0..3] is the ancestor chain of "a/b/c"
+	// multi-character components, so that truncation at the wrong byte shows
+	names := []string{"", "ab", "ab/c", "ab/c/de", "ab/d", "b"}
+	chainLen := 4 // names[0..3] is the ancestor chain of "ab/c/de"
 	store := verifC19NewLevelStore(names, 2)
 	store.failName = vnd.Int(-1, chainLen-1)
 	ba := NewHierarchicalInstanceNamesBlobAccess(store)
@@ -195,7 +196,7 @@ func Verif_C19_T4_HierarchicalGet() {
 // pruning loop.
 func Verif_C19_T4_HierarchicalFindMissing() {
 	ctx := context.Background()
-	names := []string{"", "a", "a/b", "a/b/c", "b", "a/c"}
+	names := []string{"", "ab", "ab/c", "ab/c/de", "b", "ab/d"}
 	type item struct{ obj, name int }
 	items := []item{{0, 3}, {1, 2}, {0, 4}, {1, 0}}
 	nObjects := 2
